@@ -783,7 +783,7 @@ fn gen_cases(tier: &str, seed: u64) {
         }
     }
     // random sequences; every fourth one with a manager too small for the work (INVALID handles)
-    let nrand = if thorough { 400 } else { 60 };
+    let nrand = if thorough { 1500 } else { 60 };
     for kind in kinds {
         for i in 0..nrand {
             id += 1;
@@ -791,7 +791,7 @@ fn gen_cases(tier: &str, seed: u64) {
             g.mnew();
             let nv = g.rng.range(2, 5) as u32;
             g.addvars(nv);
-            let len = g.rng.range(20, if thorough { 140 } else { 90 });
+            let len = g.rng.range(20, if thorough { 160 } else { 90 });
             let small = i % 3 == 2;
             g.small = small;
             for _ in 0..len {
